@@ -4,6 +4,7 @@ from props.common import svt, gens, summarize_cfg, differential
 
 ID = "C21"
 LEVEL = "exploration"
+TAG_KEYS = True   # violation keys get the configuration feature tag appended (engine.feature_tag)
 RULE = ("Hypothesis draws (configuration, content, N; widths/heights mostly not multiples of 8; 8/10-bit) and 2-3 submission variants of the same visible samples: "
         "stride = width + {1..64} per plane (separate per plane) with padding bytes 0xFF / random / pattern; caller scribbles over picture memory and buffer headers "
         "right after send_picture returns; caller frees and reallocates its buffers after every send. Oracle: packets+recon byte-identical to the tightly packed, "
